@@ -52,7 +52,7 @@ MANIFEST = dict(
     level_note=("Trusted: Lean kernel; axioms propext/Classical.choice/Quot.sound only; the correspondence harness; zlib "
                 "(abstract law, exercised concretely by the harness); Python's compile/exec and str.isprintable (the option "
                 "theorems hold for every set of non-printable code points); the remote shell command line and its quoting "
-                "are outside. C18_source_bytes holds for the binary-mode read (proposed fix C18-binary-source-read); the "
+                "are outside. C18_source_bytes holds for the binary-mode read (fix commit 4f669b3); the "
                 "text-mode read translated CR and depended on the locale (C18_textmode_read_false, C18_source_bytes_partial)."),
     technique="Lean 4 proof (induction over the module list, refinement to the flat stream) + differential correspondence with the real packaging and assembler code",
 )
